@@ -3,7 +3,7 @@ import re
 from lib import hx, unhx
 
 PANICMSG = re.compile(r"panic (\w+) [0-9a-f-]+")
-GAUGE = re.compile(r" (gauge|probe|wstk)=\S+")
+GAUGE = re.compile(r" (gauge|probe|wstk)=[^\s\];]+")
 
 
 def project(o):
